@@ -154,6 +154,7 @@ def run_case(case):
         if len(vs) >= 3:
             break
     del saved
+    prev_saved = None
     for level in range(depth):
         nxt = []
         for node in frontier:
@@ -178,6 +179,14 @@ def run_case(case):
                     r3 = run_from(w, ps3, Y)
                     trans += 1
                     vs += compare_tail(node, dict(t=np.array(r3.model.t), a=arrays(r3)), k, lab + " via calibration spreadsheet", 1e-9, "restart-via-spreadsheet-diverges")
+                    if prev_saved is not None and k % 2 == 0:
+                        # the spreadsheet is loaded into a parameter set that already holds ANOTHER saved state: the loaded one replaces it
+                        ps4 = sc.dcp(prev_saved)
+                        ps4.load_calibration(ss)
+                        r4 = run_from(w, ps4, Y)
+                        trans += 1
+                        vs += compare_tail(node, dict(t=np.array(r4.model.t), a=arrays(r4)), k, lab + " via calibration spreadsheet loaded over another saved state", 1e-9, "loaded-state-does-not-replace-held-state")
+                    prev_saved = ps
                 if not v and level + 1 < depth:
                     nxt.append(child)
                 if len(vs) >= 3:
